@@ -97,6 +97,11 @@ def run_table(case):
             table.index = table.index + 7
         elif 'reversed' in im:
             table.index = list(range(len(table)))[::-1]
+    co = case.get('column_order')
+    if co:
+        # the same named columns in another order (a table assembled by a user-supplied conversion method, from records, ...)
+        cols = list(table.columns)
+        table = table[[cols[k] for k in co if k < len(cols)] + [c for i, c in enumerate(cols) if i not in co]]
     stub = JumpsStub(table)
     coll = gcall(Collective, jumps=stub, sites=sites, lattice=cases.lattice(case['lattice']), max_steps=case['window'], max_dist=case['cutoff'])
     must, behind = check_collective(coll, rows, case['sites']['frac'], M, case['window'], case['cutoff'])
@@ -177,7 +182,7 @@ def table_cases(draw, tier):
     cutoff = draw(st.one_of(st.floats(0.3, 5.0), st.sampled_from(dd).map(lambda x: x + 0.05), st.sampled_from(dd).map(lambda x: max(0.05, x - 0.05))))
     order = draw(st.permutations(list(range(len(rows)))))
     index_mode = draw(st.sampled_from(['range', 'range', 'shifted', 'reversed', 'sorted', 'sorted-shifted', 'sorted-reversed']))
-    return {'index_mode': index_mode, 'lattice': lat, 'sites': {'frac': sites['frac'], 'labels': sites['labels']}, 'rows': [rows[k] for k in order], 'window': window, 'cutoff': float(cutoff)}
+    return {'index_mode': index_mode, 'column_order': draw(st.one_of(st.none(), st.none(), st.permutations([0, 1, 2, 3, 4]))), 'lattice': lat, 'sites': {'frac': sites['frac'], 'labels': sites['labels']}, 'rows': [rows[k] for k in order], 'window': window, 'cutoff': float(cutoff)}
 
 
 @st.composite
